@@ -26,7 +26,7 @@ Proof. exact norm_normal. Qed.
 Print Assumptions normal_form_is_normal.
 
 (* the SAX serialisation of an XPath-normal document (no empty text, no adjacent text, no text at
-   the top level), with its text chunked in any way, builds exactly that document, numbered in
+   the top level, one document element), with its text chunked in any way, builds exactly that document, numbered in
    pre-order from first_index: adjacent chunks are ONE text node, no empty text node appears, text is
    never merged across an element boundary, a comment or a processing instruction *)
 Theorem build_of_any_chunking : forall ts evs, top_ok ts = true -> rechunk evs (events_of_list ts) ->
@@ -167,7 +167,8 @@ Proof. vm_compute. reflexivity. Qed.
 
 (* not well nested / text at the top level: the builder fails, in every chunking *)
 Example not_nested : build_sax [EStart s_a []; EEnd; EEnd] = None /\ build_sax [EStart s_a []] = None
-                     /\ build_sax [EChars []; EChars s_x; EStart s_a []; EEnd] = None.
+                     /\ build_sax [EChars []; EChars s_x; EStart s_a []; EEnd] = None
+                     /\ build_sax [EStart s_a []; EEnd; EComment []; EStart s_b []; EEnd] = None.
 Proof. vm_compute. auto. Qed.
 
 Definition dom1 : list xnode :=
